@@ -107,6 +107,9 @@ class SystemWZ3(Inference):
                 contra_solver.add(c.make_not_A_or_B())
             if contra_solver.check() == unsat:
                 return True
+            if len(self.epistemic_state["partition"]) < 2:
+                # no finite layer: all feasible worlds are equally plausible
+                return False
 
             result = self._rec_inference(
                 opt, len(self.epistemic_state["partition"]) - 2, query_z3
